@@ -58,7 +58,7 @@ Proof.
 Qed.
 
 (** which error: Empty exactly for "" and "+"; InvalidDigit only for non-numerals; a non-numeral is always an error
-    (InvalidDigit, or InputSize when the digits read before the offending character already overflow: F26);
+    (InvalidDigit, or InputSize when the digits read before the offending character already overflow: F31);
     a supported radix never panics *)
 Theorem uint_parse_errors n r s : 2 <= r <= 36 ->
   (uint_from_str_radix n s r = ErrV E_Empty <-> sp_body s = []) /\
@@ -94,7 +94,7 @@ Qed.
 Theorem parse_unsupported_radix_panics n r s : r < 2 \/ 36 < r -> uint_from_str_radix n s r = PanicV.
 Proof. intros Hr. unfold uint_from_str_radix. rewrite radix_decode_unsupported by assumption. reflexivity. Qed.
 
-(** the table entry against its specification; the only deviation is the F26 class *)
+(** the table entry against its specification; the only deviation is the F31 class *)
 Lemma radix_ok_range r : sp_radix_ok r = true <-> 2 <= r <= 36.
 Proof. unfold sp_radix_ok. rewrite andb_true_iff, !Z.leb_le. tauto. Qed.
 
